@@ -16,6 +16,8 @@ import (
 	"context"
 
 	"github.com/lmorg/murex/builtins/pipes/streams"
+	_ "github.com/lmorg/murex/builtins/types/generic"
+	_ "github.com/lmorg/murex/builtins/types/string"
 	"github.com/lmorg/murex/lang"
 	"github.com/lmorg/murex/lang/ref"
 	"github.com/lmorg/murex/lang/stdio"
@@ -179,4 +181,79 @@ func VerifC17Cmd() {
 	rt.Reach("filter-returned")
 	rt.Assert(err == nil, "the range filter failed on a well-formed range")
 	verifC17compare(items, verifC17store[p.Stdout], lo, hi, inScope)
+}
+
+// ---- long items through the real line readers ----
+
+// VerifC17Long: a `str` / generic list of `items` lines of `width` bytes each (more than the 4 KiB
+// start buffer of the line scanner in total; filler bytes with a symbolic first byte per line)
+// through CmdRange with ranges counted from the start and from the end. The output must be
+// exactly the selected lines: readers hand out slices of their scan buffer, so an implementation
+// that keeps items must copy them.
+func VerifC17Long() {
+	n, w := rt.Param("items"), rt.Param("width")
+	dt := []string{"str", "generic"}[rt.Choice("type", 2)]
+	lines := make([]string, n)
+	text := ""
+	for i := range lines {
+		b := make([]byte, w)
+		for j := range b {
+			b[j] = byte('a' + (i+j)%26)
+		}
+		c := rt.Byte("first")
+		rt.Assume(rt.And(c >= 'A', c <= 'Z'))
+		b[0] = c
+		lines[i] = string(b)
+		text += lines[i] + "\n"
+	}
+	type rng struct {
+		text   string
+		lo, hi int // 1-based inclusive
+	}
+	cases := []rng{
+		{"-1..]", n, n}, {"-5..]", n - 4, n}, {"-14..]", n - 13, n}, {"-20..]", n - 19, n}, {"-" + verifC17itoa(n) + "..]", 1, n},
+		{"1..3]", 1, 3}, {"10..20]", 10, 20}, {verifC17itoa(n-1) + ".." + verifC17itoa(n) + "]", n - 1, n}, {"..16]", 1, 16}, {"15..]", 15, n},
+		{"2..19]e", 3, 18},
+	}
+	c := cases[rt.Choice("range", len(cases))]
+	rt.Assume(c.lo >= 1 && c.hi <= n)
+
+	p := new(lang.Process)
+	in := streams.NewStdin()
+	in.SetDataType(dt)
+	_, err := in.Write([]byte(text))
+	rt.Assert(err == nil, "cannot fill stdin")
+	p.Stdin = in
+	p.Stdout = streams.NewStdin()
+	p.Stderr = streams.NewStdin()
+	p.IsMethod = true
+	p.Context, p.Done = context.WithCancel(context.Background())
+	p.FileRef = &ref.File{Source: &ref.Source{Module: "murex/verif"}}
+	p.Name.Set("[")
+	p.Parameters.DefineParsed([]string{c.text})
+	err = CmdRange(p)
+	rt.Reach("long-returned")
+	rt.Assert(err == nil, "the range filter failed on a well-formed range")
+	out, err := p.Stdout.ReadAll()
+	rt.Assert(err == nil, "cannot read the filter's output")
+	want := ""
+	for i := c.lo; i <= c.hi; i++ {
+		want += lines[i-1] + "\n"
+	}
+	rt.Assert(len(out) == len(want), "the range filter output the wrong number of bytes for a list of long items")
+	if len(out) == len(want) {
+		rt.Assert(string(out) == want, "the range filter output the wrong items (long items)")
+	}
+}
+
+func verifC17itoa(n int) string {
+	if n == 0 {
+		return "0"
+	}
+	s := ""
+	for n > 0 {
+		s = string(rune('0'+n%10)) + s
+		n /= 10
+	}
+	return s
 }
